@@ -17,8 +17,8 @@
 //     oci.New and the harness' own readers, against the generator's ground
 //     truth (a ten-line simulator of blob set and tag map): the oracle.
 //
-// AutoGC is off (plain Delete) and GC is not scripted: defects of
-// Delete-with-AutoGC / GC belong to C08/C09.
+// Scripts run with AutoGC off (plain Delete) or on (cascades), with GC, with
+// earlier killed processes, with sha512 digests, and for the initialisation itself.
 package main
 
 import (
@@ -33,6 +33,7 @@ import (
 	"strconv"
 	"strings"
 	"sync"
+	"syscall"
 
 	"oras.land/oras-go/v2/content/oci"
 	"verifharness/common"
@@ -824,6 +825,9 @@ func runMain(sc *ck.Script, p *prepared, onlyK int, allK bool) {
 	}
 	recText := stepsText(steps)
 	run.Count("final:" + sc.Final.Kind)
+	if fe := encOp(sc, sc.Final, unlinked(steps)); strings.HasPrefix(fe, "dgc:") && strings.Count(fe, ":") >= 2 {
+		run.Count("composite-finals-with-cascade")
+	}
 	run.Count(fmt.Sprintf("history-len:%d", len(sc.History)))
 	run.Count(fmt.Sprintf("earlier-crashes-in-script:%d", len(sc.Pre)))
 	run.Count(fmt.Sprintf("window-syscalls:%02d", (len(win)/10)*10))
@@ -869,6 +873,9 @@ func runMain(sc *ck.Script, p *prepared, onlyK int, allK bool) {
 			run.Count("kill-point-differs-from-request")
 		}
 		run.Count("kills")
+		if strings.Count(o.steps, "write:T") >= 1 && strings.Count(recText, "write:T") >= 2 && !strings.Contains(o.steps, "rename:T") {
+			run.Count("multi-write-push-kills") // cut in the middle of the content of a blob written in several units
+		}
 	}
 	// the completed run: effects of everything that returned are present
 	finalState := ck.ObserveDir(rec, sc, sizes)
@@ -1129,6 +1136,7 @@ func main() {
 		os.Exit(ck.ChildMain(os.Args[2], os.Args[3]))
 	}
 	run = common.Start("C10")
+	syscall.Umask(0o022)
 	defer run.Finish()
 	run.Rule = "a case = (script, kill point): the child is killed by strace at the entry of one system call of the final operation; distinct = distinct (final operation, number of completed micro-steps, number of earlier crashes); non-trivial = killed strictly inside the operation's mutating steps (plus every non-empty recorded script)"
 	var err error
@@ -1184,5 +1192,40 @@ func main() {
 			}
 			runGeneratedIn(r, sc, r.Intn(5), kind, run.Thorough(), crashes)
 		}
+	}
+	checkFloors()
+}
+
+// checkFloors: a run that hardly killed anything proves nothing.  If the crash
+// layer degraded (injections missing their window, cascades unjudged, a stream
+// that produced no case) the harness fails (layer R), it does not pass silently.
+func checkFloors() {
+	d := run.Dist
+	var bad []string
+	need := func(key string, min int) {
+		if d[key] < min {
+			bad = append(bad, fmt.Sprintf("%s = %d < %d", key, d[key], min))
+		}
+	}
+	need("kills", run.Scale(300, 3000))
+	need("earlier-crashes", run.Scale(15, 150))
+	need("final:gc", run.Scale(4, 30))
+	need("final:init", 1)
+	need("final:reopen", run.Scale(3, 20))
+	need("composite-finals-with-cascade", run.Scale(2, 30))
+	need("multi-write-push-kills", run.Scale(10, 100))
+	if m, k := d["kill-missed-window"], d["kills"]; m*20 > k+m {
+		bad = append(bad, fmt.Sprintf("%d of %d injected kills missed the window (> 5%%)", m, k+m))
+	}
+	if u, k := d["cascade-order-differs-unjudged"], d["kills"]; u*10 > k {
+		bad = append(bad, fmt.Sprintf("%d kill cases unjudged by the model (> 10%%)", u))
+	}
+	if t := d["script-abandoned-child-timeout"]; t > run.Scale(5, 40) {
+		bad = append(bad, fmt.Sprintf("%d scripts abandoned on child timeouts", t))
+	}
+	if len(bad) > 0 {
+		run.Finish()
+		fmt.Fprintln(os.Stderr, "C10 coverage floor not reached: "+strings.Join(bad, "; "))
+		os.Exit(3)
 	}
 }
